@@ -1065,3 +1065,31 @@ Corollary reopen_keeps_versions s v k :
   saved (step s Reopen).2 = saved s /\ version (step s Reopen).2 = version s /\
   tree (step s Reopen).2 = default ∅ (saved s !! version s).
 Proof. repeat split; reflexivity. Qed.
+
+(* ---------- a refused write has no effect ---------- *)
+Lemma refused_set_no_effect s k v s' : step s (Set_ k v) = (OErr, s') -> s' = s.
+Proof.
+  cbn [step]. unfold do_set. destruct (sess s); [discriminate|].
+  destruct (gas s) as [g|]; [|discriminate].
+  destruct (consume_strict g 1 WRITEFLAT) as [[|] g1]; [discriminate|].
+  intros E. inversion E. reflexivity.
+Qed.
+
+(* ... in particular not on what the next block commit persists, nor on its tree calls *)
+Corollary refused_set_not_committed s k v : (step s (Set_ k v)).1 = OErr ->
+  step (step s (Set_ k v)).2 BlockCommit = step s BlockCommit.
+Proof.
+  intros H. destruct (step s (Set_ k v)) as [r s'] eqn:E. cbn [fst] in H. subst r.
+  rewrite (refused_set_no_effect s k v s' E). reflexivity.
+Qed.
+
+(* an accepted write outside a session is in the block cache, a refused one is not: the block
+   cache holds exactly the writes that returned success *)
+Lemma accepted_set_in_cache s k v : sess s = None -> (step s (Set_ k v)).1 = OUnit ->
+  oget (cache (step s (Set_ k v)).2) k = Some v.
+Proof.
+  cbn [step]. unfold do_set. intros ->. destruct (gas s) as [g|].
+  - destruct (consume_strict g 1 WRITEFLAT) as [[|] g1]; [|discriminate].
+    intros _. cbn. apply lookup_insert.
+  - intros _. cbn. apply lookup_insert.
+Qed.
